@@ -91,6 +91,16 @@ class Sim:
     def _pick_next(self, exclude=None):
         """Choose the next thread to run; may advance the clock."""
         while True:
+            # a busy action may have moved the clock past sleepers' deadlines: they are runnable now
+            for t in self.threads:
+                if t.state == BLOCKED and t.wake_at is not None and t.wake_at <= self.now:
+                    t.state = RUNNABLE
+                    t.wake_at = None
+                    t.woke_by_timeout = True
+                    if t.wait_ev is not None:
+                        t.wait_ev._waiters.discard(t)
+                        t.wait_ev = None
+                    t.wait_join = None
             cands = [t for t in self.threads if t.state == RUNNABLE and not t.quiescent_wait]
             if exclude is not None and len(cands) > 1:
                 cands = [t for t in cands if t is not exclude]
